@@ -131,3 +131,16 @@ def classify_c10(place, stdin_kind, errs, stdin_pair, ident, want_ident):
     lines = re.findall(r'[^\n]*\n|[^\n]+', want)
     stripped = ''.join(l for l in lines if l.strip() != '' and not l.lstrip().startswith('#'))
     return 'KF-C10-ACT-HEREDOC' if got == stripped else None
+
+
+def classify_c15(instr, ident, created_outside, errs):
+    """KF-C15-SYMLINK-ESCAPE.  Predicate: the populated directory already contains a symbolic link to a directory outside it, and an entry of the
+    FILE-LIST / copied tree has a name that passes through that link.  Defect model: names are only checked lexically (absolute, `..`); population
+    follows the link, the case PASSes and the entry is created at the link's target.  The only error is the creation outside."""
+    if not is_known('KF-C15-SYMLINK-ESCAPE'):
+        return None
+    if 'lnk' not in instr and 'esrc' not in instr:
+        return None
+    if ident == 'PASS' and created_outside and len(errs) == 1:
+        return 'KF-C15-SYMLINK-ESCAPE'
+    return None
